@@ -357,5 +357,17 @@ func (ww *conversionVisitor) visitEnumNode(node *sourcewalk.EnumNode) {
 		eb.addValue(int32(idx+1), value)
 	}
 
+	// the info annotations on the enum and on its values are extensions: the
+	// file must import their definition whatever else it declares
+	needsExt := node.Schema.Info != nil
+	for _, value := range node.Schema.Options {
+		if len(value.Info) > 0 {
+			needsExt = true
+		}
+	}
+	if needsExt {
+		ww.file.ensureImport(j5ExtImport)
+	}
+
 	ww.parentContext.addEnum(eb)
 }
